@@ -254,6 +254,9 @@ class NDNApp:
                 del self._int_tree[node_name]
             raise InterestTimeout()
         except aio.CancelledError:
+            # Cancelled by the caller (or by shutdown): do not leave a dead entry behind
+            if node.timeout(future) and self._int_tree.get(node_name) is node:
+                del self._int_tree[node_name]
             raise InterestCanceled()
         if validator is None:
             validator = self.data_validator
